@@ -237,17 +237,24 @@ func shorten(l []string) []string {
 func TestProp_ForgedState(t *testing.T) {
 	rec := vkit.Rec(prop)
 	vkit.SetRapidChecks(vkit.N(80))
-	w := vkit.NewWorld(vkit.WorldConfig{})
+	// the server's storage supports lookup by node ID: both lookup paths are exercised
+	w := vkit.NewWorld(vkit.WorldConfig{NodeIdLoader: true})
 	defer w.Close()
 	rig := vkit.NewRig(w, vkit.RigConfig{})
 	defer rig.Close()
 	node, other := vkit.NewActor("node"), vkit.NewActor("other")
-	for _, a := range []*vkit.Actor{node, other} {
+	for i, a := range []*vkit.Actor{node, other} {
 		if err := w.Enroll(a); err != nil {
 			t.Fatalf("enroll: %v", err)
 		}
+		id := []string{"N-node", "N-other"}[i]
+		if err := w.EditNode(a.KeyID, func(ni *types.NodeInformation) { ni.NodeId = id }); err != nil {
+			t.Fatalf("edit: %v", err)
+		}
+		w.NodeID.Order[id] = []string{a.KeyID}
 	}
 	rapid.Check(t, func(t *rapid.T) {
+		byNodeID := rapid.Bool().Draw(t, "lookupByNodeId")
 		how := rapid.SampledFrom([]string{"valid", "unsigned", "signed-by-other-node", "garbage-signature", "signature-over-other-state"}).Draw(t, "stateSignature")
 		state := vkit.UniqueStruct(fmt.Sprint(rapid.Int().Draw(t, "marker")))
 		sb, _ := proto.Marshal(state)
@@ -264,6 +271,9 @@ func TestProp_ForgedState(t *testing.T) {
 		case "signature-over-other-state":
 			req.ClientStateSignature = ed25519.Sign(node.CertPriv, append([]byte("x"), sb...))
 		}
+		if byNodeID {
+			req.NodeId = "N-node"
+		}
 		b := node.Creds.CertificateBundles[0]
 		cli := &vkit.AdvClient{NextProtos: vkit.AuthProtos(req, nil), Chain: [][]byte{b.CertificateDer, b.CaCertificateDer}, Key: node.CertPriv}
 		res := cli.Handshake(rig.Addr)
@@ -271,7 +281,7 @@ func TestProp_ForgedState(t *testing.T) {
 		if res.Conn != nil {
 			defer res.Conn.Close()
 		}
-		rec.Case("forged-state/"+how, how+fmt.Sprint(len(sb)), true, func() any { return map[string]any{"state_signature": how} })
+		rec.Case("forged-state/"+how+map[bool]string{true: "/node-id-path", false: "/key-id-path"}[byNodeID], how+fmt.Sprint(len(sb), byNodeID), true, func() any { return map[string]any{"state_signature": how, "lookup_by_node_id": byNodeID} })
 		var acc *vkit.AcceptResult
 		for i := range out {
 			if out[i].Conn != nil {
@@ -288,7 +298,7 @@ func TestProp_ForgedState(t *testing.T) {
 			return
 		}
 		if acc != nil && acc.Authenticated() {
-			vkit.Violate(t, prop, "C16/unverified-state-exposed/"+how, "a connection carrying state that does not verify under the node's key was returned as authenticated", map[string]any{"state_signature": how})
+			vkit.Violate(t, prop, "C16/unverified-state-exposed/"+how, "a connection carrying state that does not verify under the node's key was returned as authenticated", map[string]any{"state_signature": how, "lookup_by_node_id": byNodeID})
 		}
 	})
 }
